@@ -12,6 +12,7 @@ import (
 
 	"github.com/llir/llvm/asm"
 	"github.com/llir/llvm/ir"
+	"github.com/llir/llvm/ir/constant"
 	"github.com/llir/llvm/ir/metadata"
 	"github.com/llir/llvm/ir/types"
 )
@@ -398,6 +399,32 @@ func init() {
 		}
 		return "ok"
 	})
+	// C01: nothing the input said is dropped or altered: after parse+print the given fragments are still there
+	// (a[0] = fragments joined by \x1f, hex; a[1] = text), and the output is stable
+	reg("mod.keeps", func(a []string) string {
+		text := string(unhexArg(a[1]))
+		m, o := parseOutcome(text)
+		if m == nil {
+			return "FAIL " + o
+		}
+		y := safe(func([]string) string { return m.String() }, nil)
+		if y == "panic" {
+			return "FAIL print-panic"
+		}
+		for _, frag := range strings.Split(string(unhexArg(a[0])), "\x1f") {
+			if frag != "" && !strings.Contains(y, frag) {
+				return "FAIL dropped-or-altered " + frag
+			}
+		}
+		m2, o2 := parseOutcome(y)
+		if m2 == nil {
+			return "FAIL reparse-" + o2
+		}
+		if z := safe(func([]string) string { return m2.String() }, nil); z != y {
+			return "FAIL unstable " + firstDiff(y, z)
+		}
+		return "ok"
+	})
 	// C02 for arbitrary accepted input: y = print(parse(x)) is accepted and print(parse(y)) == y
 	reg("mod.stable", func(a []string) string {
 		text := string(unhexArg(a[1]))
@@ -425,9 +452,43 @@ func init() {
 		}
 		return "ok"
 	})
+	// C12: what was parsed or printed earlier in the process must not matter: parse A, print; parse+print B; print A again and
+	// print a fresh parse of A: all equal; and the package-level shared singletons are untouched.
+	reg("mod.pollute", func(a []string) string {
+		ta, tb := string(unhexArg(a[0])), string(unhexArg(a[1]))
+		m1, o := parseOutcome(ta)
+		if m1 == nil {
+			return "ok rejected-" + o
+		}
+		s1 := m1.String()
+		if m2, _ := parseOutcome(tb); m2 != nil {
+			_ = safe(func([]string) string { return m2.String() }, nil)
+		}
+		s2 := m1.String()
+		m3, _ := parseOutcome(ta)
+		if m3 == nil {
+			return "FAIL acceptance-changed"
+		}
+		s3 := m3.String()
+		if s1 != s2 {
+			return "FAIL reprint-differs " + firstDiff(s1, s2)
+		}
+		if s1 != s3 {
+			return "FAIL reparse-differs " + firstDiff(s1, s3)
+		}
+		if fp := singletonFingerprint(); fp != singletons0 {
+			return "FAIL shared-singleton-mutated " + firstDiff(singletons0, fp)
+		}
+		return "ok"
+	})
 	// C12: same text, repeated parses through every entry point, give the same output
 	reg("mod.det", func(a []string) string {
 		text := string(unhexArg(a[1]))
+		defer func() {
+			if fp := singletonFingerprint(); fp != singletons0 {
+				panic("shared singleton mutated: " + firstDiff(singletons0, fp))
+			}
+		}()
 		ref, o := parseOutcome(text)
 		want := o
 		if ref != nil {
@@ -469,6 +530,21 @@ func init() {
 		return "ok"
 	})
 }
+
+// singletonFingerprint renders the package-level shared objects that parsed and constructed modules point to.
+func singletonFingerprint() string {
+	var sb strings.Builder
+	for _, t := range []types.Type{types.Void, types.MMX, types.Label, types.Token, types.Metadata, types.I1, types.I2, types.I3, types.I4, types.I5, types.I6, types.I7,
+		types.I8, types.I16, types.I32, types.I64, types.I128, types.I256, types.I512, types.I1024, types.Half, types.Float, types.Double, types.X86_FP80, types.FP128,
+		types.PPC_FP128, types.I1Ptr, types.I8Ptr, types.I16Ptr, types.I32Ptr, types.I64Ptr, types.I128Ptr} {
+		fmt.Fprintf(&sb, "%T{%q %s};", t, t.Name(), t.LLString())
+	}
+	fmt.Fprintf(&sb, "True{%p %v %q};False{%p %v %q};None{%v};Null{%v}", constant.True.Typ, constant.True.X, constant.True.Typ.Name(), constant.False.Typ, constant.False.X,
+		constant.False.Typ.Name(), constant.None.Type(), metadata.Null)
+	return sb.String()
+}
+
+var singletons0 = singletonFingerprint()
 
 func firstDiff(a, b string) string {
 	i := 0
